@@ -62,8 +62,16 @@ def gen_label_history(rng, g):
         cfg[name] = {"listen": listens[name][0], "up": ups[rng.below(2)]}
         ops.append(T.api("POST", "/proxies", {"name": name, "listen": "127.0.0.1:%d" % cfg[name]["listen"], "upstream": "127.0.0.1:%d" % cfg[name]["up"]}))
         hist.append({"ev": "config", "proxy": name, **cfg[name]})
-    if rng.chance(1, 3):
-        ops.append(T.api("POST", "/proxies/p/toxics", {"type": "latency", "attributes": {"latency": 5}}))
+    if rng.chance(1, 2):
+        # toxics that neither drop nor truncate - among them toxics that are listed but switched off (toxicity 0), reset_peer included: a
+        # connection they leave alone is counted like any other
+        ops.append(T.api("POST", "/proxies/p/toxics", rng.choice([
+            {"type": "latency", "attributes": {"latency": 5}},
+            {"type": "reset_peer", "toxicity": 0, "stream": rng.choice(["upstream", "downstream"]), "attributes": {"timeout": 0}},
+            {"type": "reset_peer", "toxicity": 0, "stream": "downstream", "attributes": {"timeout": 50}},
+            {"type": "timeout", "toxicity": 0, "stream": rng.choice(["upstream", "downstream"]), "attributes": {"timeout": 1}},
+            {"type": "limit_data", "toxicity": 0, "attributes": {"bytes": 1}},
+            {"type": "slicer", "attributes": {"average_size": 1000, "size_variation": 0, "delay": 0}}])))
     cid = 0
     nph = rng.range(2, 4)
     for ph in range(nph):
